@@ -21,7 +21,7 @@ RULES = ["-", "p", "n", "pn", "np", "b", "pb", "nb", "b", "x", "px", "bx", "xb",
 STATS = ["S", "S", "S0", "S01", "0", "-", "S1", "01", "wS", "wS0", "Sw", "wS01"]
 RTYPES = ["common", "web", "rpc", "api_gateway", "db_sql", "cache", "mq"]
 STEPS = [0, 0, 1, 1, 2, 7, 499, 500, 501, 999, 1000, 1001, 1499, 9499, 9999, 10000, 10001, 10500, 20000, 35001]
-ERRS = ["e1", "e2", "boom", "late", "nil"]
+ERRS = ["e1", "e2", "boom", "late", "nil", "blk", "w_e1", "blk"]   # plain, nil, *base.BlockError, wrapped
 
 
 def gen_args(rng, hot, panic_ok):
@@ -64,6 +64,10 @@ def gen_case(rng, cid):
     else:
         ops = [f"clock {rng.choice([0, 1, 250, 499, 500, 501, 9999, rng.randint(0, 12000)])}"]
         now = int(ops[0].split()[1])
+    # the node map grows by n never-seen resources first (rarely past base.DefaultMaxResourceAmount = 10000): the case's own
+    # resources are then first-time resources beyond the threshold and must be accounted like any other
+    if rng.random() < 0.06:
+        ops.append(f"many {rng.choice([10000, 10001, 10500]) if rng.random() < 0.25 else rng.choice([1, 3, 50, 400])}")
     hot = set()
     for r in ress:
         if rng.random() < 0.35:
@@ -144,7 +148,9 @@ def gen_case(rng, cid):
                 ops.append(f"whenexit {nid} {rng.choice(['ok', 'err', 'err', 'err', 'ok', 'panic'] if rng.random() < 0.3 else ['ok', 'err', 'err'])}")
         elif r < 0.50 and (live or done):
             pool = live if (rng.random() < 0.75 and live) else (done or live)
-            ops.append(f"trace {rng.choice(pool)} {rng.choice(ERRS)}")
+            err = rng.choice(ERRS)
+            # api.TraceError, or entry.SetError called directly (non-nil errors only)
+            ops.append(f"{'seterr' if err != 'nil' and rng.random() < 0.25 else 'trace'} {rng.choice(pool)} {err}")
         elif r < 0.68 and (live or done):
             if live and rng.random() < 0.8:
                 # exits out of order: newest, oldest or random
@@ -272,7 +278,7 @@ def nontrivial(case, impl):
                 compl += 1
             exited.add(t[1])
             kinds.append(t[0][0].upper() + str(len(t)))
-        elif t[0] == "trace":
+        elif t[0] in ("trace", "seterr"):
             late += t[1] in exited
             kinds.append("T")
         elif t[0] == "read":
